@@ -263,12 +263,15 @@ struct PGMIndex<K, Epsilon, EpsilonRecursive, Floating>::Segment {
      * @return the approximate position of the specified key
      */
     inline size_t operator()(const K &k) const {
-        size_t pos;
+        double pos;
         if constexpr (std::is_same_v<K, int64_t> || std::is_same_v<K, int32_t>)
-            pos = size_t(slope * double(std::make_unsigned_t<K>(k) - key));
+            pos = slope * double(std::make_unsigned_t<K>(k) - key);
         else
-            pos = size_t(slope * double(k - key));
-        return pos + intercept;
+            pos = slope * double(k - key);
+        // For keys far away from the segment the prediction may exceed the range of size_t, in which case the
+        // conversion would be undefined. Any value larger than the number of elements is equivalent for the callers.
+        constexpr double max_pos = 9223372036854775808.0; // 2^63
+        return (pos < max_pos ? size_t(pos) : size_t(max_pos)) + intercept;
     }
 };
 
